@@ -40,6 +40,32 @@ CHECKS = {
             "Trusted: bisection oracle (self-checked against literal ticking with a per-tick step counter); "
             "requests that do not complete the budget within the rate range are skipped and counted.",
             "DESIGN.md section 3 C03"),
+    "C04": ("fault_enumeration",
+            "online latch monitor (hook on every err assignment + every write() of the injected fake port) and "
+            "per-call history checker on the real EBBMotionWrap; systematic fault placement then all 32 followers",
+            "Every one of the 32 public request methods was called (random valid arguments) on objects latched by each "
+            "fatal fault kind at each write/read index of each request method, latched by each kind of failed connect, "
+            "never connected, disconnected and rebooted, plus random 5..60-call histories with disconnect/connect/"
+            "record_error interleaved (1.6e5 blocked calls quick, ~2e7 thorough): no write() reached the port while an "
+            "error was recorded or the port was absent, each call returned its documented failure value, no err "
+            "assignment replaced a recorded message, nothing raised.",
+            "Trusted: fake pyserial port and Ebb3Board simulator (vmon/serialsim.py); failure-value table from the "
+            "docstrings; the run-time subclass only wraps and forwards.",
+            "DESIGN.md section 4 C04"),
+    "C05": ("fault_enumeration",
+            "offline checker over client-boundary and device-boundary event logs of the real EBB3 object against "
+            "the statement's framing rule; scripted replies, systematic method x fault x I/O-position placement, "
+            "delayed conforming histories with value attribution against a board simulator",
+            "Per command()/query() invocation observed (1.3e5 quick, ~1.5e7 thorough): exactly one write of "
+            "trimmed text + CR, reads == empties (<=25) + 1, success exactly when the first non-empty line starts "
+            "with the 1/2-letter name and carries no Err:, query payload == line minus name minus one comma; per "
+            "depth-0 call of each of the 32 request methods under each fault kind at each I/O index: nothing "
+            "raised, failure recorded in err and reported by the failure value; after successes no reply left "
+            "unread and values returned equal what the board generated for that request.",
+            "Trusted: fake port / board simulator; request alphabet and reply alphabet as generated (malformed "
+            "payloads with a correct name are out of the statement's alphabet); bare OSError out of "
+            "reboot()/bootload() is logged, not decided (pyserial wraps OS errors in SerialException).",
+            "DESIGN.md section 4 C05"),
     "C17": ("exploration",
             "runtime contract on the real max_rate_t3 + exact per-tick rate oracle, workload stratified by "
             "vertex position",
